@@ -258,6 +258,13 @@ class Action:
                 self.status = ActionStatus.FINISHED
                 self.flow_scope_count = 0
             elif event.name == f"Start{self.name}":
+                if self.status not in (
+                    ActionStatus.INITIALIZED,
+                    ActionStatus.STARTING,
+                ):
+                    # The Start event comes back after the action was already stopped
+                    # (or has started / finished): it must not revive the action
+                    return
                 self.context.update(event.arguments)
                 self.status = ActionStatus.STARTING
                 # The Start event comes back as an input event once it was sent out: the
